@@ -239,6 +239,14 @@ class _Canon(ast.NodeTransformer):
         return node
 
 
+def _empty_container_call(e: ast.AST) -> bool:
+    """dict() / list() / set() / OrderedDict() / defaultdict(list): building it has no effect besides the new object.  Any other call as
+    the default of setdefault is evaluated *whether or not the key exists* - that is behaviour (a constructor that registers itself)
+    and must stay visible, so such a setdefault is not shown as check-then-create."""
+    return isinstance(e, ast.Call) and isinstance(e.func, ast.Name) and e.func.id in ("dict", "list", "set", "tuple", "OrderedDict", "defaultdict", "Counter", "deque") \
+        and all(isinstance(a, (ast.Name, ast.Constant)) for a in e.args) and not e.keywords
+
+
 class _SetDefault(ast.NodeTransformer):
     """``row = T.setdefault(k, D)`` / ``T.setdefault(k, D)[i] = v`` / ``T.setdefault(k, D).append(v)`` are the check-then-create idiom
     ``if k not in T: T[k] = D`` followed by the same statement over ``T[k]`` (key and default are written twice: view only, the key
@@ -249,7 +257,7 @@ class _SetDefault(ast.NodeTransformer):
 
         def is_sd(e):
             return isinstance(e, ast.Call) and isinstance(e.func, ast.Attribute) and e.func.attr == "setdefault" and len(e.args) == 2 and not e.keywords \
-                and _simple(e.args[0]) and isinstance(e.args[1], (ast.Dict, ast.List, ast.Constant, ast.Call, ast.Name, ast.Attribute))
+                and _simple(e.args[0]) and (isinstance(e.args[1], (ast.Dict, ast.List, ast.Constant, ast.Name, ast.Attribute)) or _empty_container_call(e.args[1]))
 
         class R(ast.NodeTransformer):
             def visit_Lambda(self, node):
